@@ -343,11 +343,17 @@ func (e *Evaluator) evalForStmt(node *ast.ForStmt, env *object.Env) object.Objec
 			return post
 		}
 
-		if node.Init == nil {
+		// The value of a post expression like "i++" becomes the new
+		// value of the init variable. A post assignment like "i = i + 2"
+		// has already changed the variable by itself.
+		initStmt, hasInitVar := node.Init.(*ast.AssignStmt)
+		_, isPostExp := node.Post.(*ast.ExpressionStmt)
+
+		if !hasInitVar || !isPostExp {
 			continue
 		}
 
-		varName := node.Init.(*ast.AssignStmt).Name.Value
+		varName := initStmt.Name.Value
 
 		err := newEnv.Set(varName, post)
 		if err != nil {
